@@ -20,6 +20,7 @@ repaired behaviour per code section), spec/host/Health.tla (hysteresis).
 import collections
 import json
 import os
+import re
 
 import kit
 
@@ -166,6 +167,8 @@ def run(ctx):
         ctx.mc("host", "HostSetPub", "MC_HostSetPub_lazy_lin.cfg", workers=4, timeout=300, expect_violated=["LinearizableHealthy"], count=False)
     r = ctx.mc("host", "Health", "MC_Health.cfg", workers=2, timeout=300, coverage=True)
     ctx.check_vacuity(r, "Health")
+    # anti-vacuity: a reconfiguration that is ignored when the interval is unchanged must violate FlipOnlyAfterThreshold
+    ctx.mc("host", "Health", "MC_Health_ignore.cfg", workers=1, timeout=120, expect_violated=["FlipOnlyAfterThreshold"], count=False)
     ctx.mc("host", "Health", "MC_Health_docreading.cfg", workers=1, timeout=120, expect_violated=["FlipsAtThreshold"], count=False)
     ctx.mc("host", "Health", "MC_Health_flipback.cfg", workers=1, timeout=120, expect_violated=["NoFlipBack"], count=False)
     ctx.notes.append("Health: the monitor compares `count > threshold`, so a flip happens after threshold+1 consecutive contrary results "
@@ -249,8 +252,14 @@ def run(ctx):
     readers_race(ctx)
 
     # ---- 4. health hysteresis on the real monitor
+    # every transition path of HealthGen: check results with one run-time reconfiguration (ResetHealthCheck: thresholds
+    # raised / lowered, interval changed / unchanged) in between; thorough adds the paths with two reconfigurations
     r = ctx.tlc("host", "HealthGen", "Gen_Health.cfg", mode="mc", workers=1, deadlock=False, timeout=300)
     hpaths = [p for (tag, p) in r.prints if tag == "EDGE"]
+    if t:
+        r = ctx.tlc("host", "HealthGen", "Gen_Health2.cfg", mode="mc", workers=1, deadlock=False, timeout=600)
+        hpaths += [p for (tag, p) in r.prints if tag == "EDGE"]
+    r.stdout, r.prints = "", []
     if len(hpaths) < 1000:
         raise kit.Inconclusive("only %d health paths" % len(hpaths))
     hfile = os.path.join(ctx.work, "health.ndjson")
@@ -260,18 +269,55 @@ def run(ctx):
     hr = kit.read_ndjson(hres)
     hconf = 0
     maxlate = 0
+    nreconf = 0
+    hfound = {}
     for x in hr:
         ctx.case(key=["health", x["rise"], x["fall"], x["seq"]], nontrivial=x["flips"] > 0)
         if x["id"] < len(hpaths) and x["conform"]:
             hconf += 1
+        if x.get("reconfs"):
+            nreconf += 1
         maxlate = max(maxlate, x["maxLate"])
-        if x.get("earlyFlip"):
-            ctx.violation("health-flip-before-threshold", "rise=%d fall=%d outcomes %s: %s" % (x["rise"], x["fall"], x["seq"], x["earlyFlip"]),
-                          {"kind": "c15-health", "result": x})
-        if x.get("viewMismatch"):
-            ctx.violation("health-view-mismatch", "rise=%d fall=%d outcomes %s: %s" % (x["rise"], x["fall"], x["seq"], x["viewMismatch"]),
-                          {"kind": "c15-health", "result": x})
-    ctx.cov["health"] = {"paths": len(hpaths), "conform_exactly": hconf, "sequences_total": len(hr), "max_results_beyond_threshold_at_flip": maxlate}
+        for key, sig in (("earlyFlip", "health-flip-before-threshold" + ("/after-reconfigure" if x.get("earlyAfterReconf") else "")),
+                         ("viewMismatch", "health-view-mismatch")):
+            if x.get(key):
+                e = hfound.setdefault(sig, {"n": 0, "x": x, "key": key})
+                e["n"] += 1
+                if len(x["seq"]) < len(e["x"]["seq"]):
+                    e["x"] = x
+    # end to end: a real TCP processor, OnSvcConfigUpdate while a round is held, probes failed / answered round by round
+    efile = os.path.join(ctx.work, "hc-e2e.ndjson")
+    ctx.harness(["c15-hc-e2e", "-out", efile], timeout=600)
+    e2e = kit.read_ndjson(efile)
+    for x in e2e:
+        if x.get("err"):
+            raise kit.Inconclusive("c15-hc-e2e: " + x["err"])
+        ctx.case(key=["hc-e2e", x["intervalChanged"], x["from"], x["to"]], nontrivial=True)
+        early = None
+        if 0 < x["failsToUnhealthy"] < x["to"][1]:
+            early = "host became unusable after %d consecutive failed rounds, fall threshold in force %d" % (x["failsToUnhealthy"], x["to"][1])
+        elif 0 < x["oksToHealthy"] < x["to"][0]:
+            early = "host became usable again after %d consecutive successful rounds, rise threshold in force %d" % (x["oksToHealthy"], x["to"][0])
+        if early:
+            e = hfound.setdefault("health-flip-before-threshold/after-reconfigure", {"n": 0, "x": None, "key": "e2e"})
+            e["n"] += 1
+            e["e2e"] = (x, early)
+        if x["failsToUnhealthy"] == 0 or x["oksToHealthy"] == 0:
+            ctx.notes.append("hc-e2e %s: the host did not flip within 8 rounds (trace %s)" % (x, x["trace"]))
+    for sig in sorted(hfound):
+        e = hfound[sig]
+        parts = []
+        if e.get("x"):
+            x = e["x"]
+            parts.append("real monitor, initial rise=%d fall=%d, steps %s: %s" % (x["rise"], x["fall"], x["seq"], x[e["key"]] if e["key"] in x else ""))
+        if e.get("e2e"):
+            x, early = e["e2e"]
+            parts.append("end to end (TCP processor, OnSvcConfigUpdate %s -> %s, interval %s): %s; rounds %s" % (
+                x["from"], x["to"], "changed" if x["intervalChanged"] else "unchanged", early, x["trace"]))
+        ctx.violation(sig, "a host's health flipped after fewer consecutive contrary results than the threshold in force [%s; %d cases]"
+                      % ("; ".join(parts), e["n"]), {"kind": "c15-health", "result": e.get("x"), "e2e": e.get("e2e")})
+    ctx.cov["health"] = {"paths": len(hpaths), "conform_exactly": hconf, "sequences_total": len(hr), "with_reconfiguration": nreconf,
+                         "max_results_beyond_threshold_at_flip": maxlate, "e2e_reconfigurations": e2e}
     if hconf == len(hpaths):
         ctx.cov["traces_validated_against_impl"] += hconf
     else:
@@ -281,7 +327,8 @@ def run(ctx):
     ctx.cov["rule"] = ("host set: every transition of TLC's reduced state graph of HostSetGen (pinned and repaired variant) as one path "
                        "from the initial state + seeded simulated behaviours; distinct by operation sequence; non-trivial = goes through "
                        "a named window (re-add, non-stored object, stale mark, ...) or splits a MarkHost* call; health: every transition "
-                       "path of HealthGen + every outcome sequence of fixed length for thresholds {1,2,3}^2; non-trivial = the flag flips")
+                       "path of HealthGen (check results and run-time reconfigurations) + every outcome sequence of fixed length for "
+                       "thresholds {1,2,3}^2; non-trivial = the flag flips; reader races: (script, repetition) pairs")
 
 
 RACE_SIG = {
@@ -393,6 +440,30 @@ def replay(ctx, rep):
         if r.get("counts"):
             ctx.violation(rep.get("signature", "replayed"), "raced %d times: %s" % (r["races"], r["counts"]), art)
         ctx.cov["rule"] = "replay of one mutation script against free-running readers"
+        return
+    if art.get("kind") == "c15-health" and art.get("result"):
+        x = art["result"]
+        steps, rise, fall = [], x["rise"], x["fall"]
+        for tok in re.findall(r"s|f|\[[^\]]*\]", x["seq"]):
+            if tok in ("s", "f"):
+                steps.append({"op": "result", "ok": tok == "s", "rise": rise, "fall": fall, "ic": False, "flag": True})
+            else:
+                parts = tok.strip("[]").split(",")
+                steps.append({"op": "reconf", "ok": True, "rise": int(parts[0]), "fall": int(parts[1]), "rise0": rise, "fall0": fall,
+                              "ic": len(parts) > 2, "flag": True})
+                rise, fall = int(parts[0]), int(parts[1])
+        hfile = os.path.join(ctx.work, "health.ndjson")
+        hres = os.path.join(ctx.work, "health-results.ndjson")
+        kit.write_ndjson(hfile, [steps])
+        ctx.harness(["c15-health", "-in", hfile, "-out", hres], timeout=300)
+        r = kit.read_ndjson(hres)[0]
+        ctx.mc("host", "Health", "MC_Health.cfg", workers=2, timeout=300)
+        ctx.case(key=["health-replay", x["seq"]], nontrivial=True)
+        ctx.case(key="replay", nontrivial=True)
+        ctx.sample({"steps": x["seq"], "flags": r["flags"], "earlyFlip": r.get("earlyFlip")})
+        if r.get("earlyFlip"):
+            ctx.violation(rep.get("signature", "replayed"), "initial rise=%d fall=%d steps %s: %s" % (x["rise"], x["fall"], x["seq"], r["earlyFlip"]), art)
+        ctx.cov["rule"] = "replay of one sequence of check results and reconfigurations through the real monitor"
         return
     if art.get("kind") != "c15-path":
         raise kit.Inconclusive("replay of %s artefacts is not supported" % art.get("kind"))
